@@ -121,7 +121,37 @@ func runC07(c *Ctx, r *Report) {
 		}
 	})
 	if marshalArg == nil {
-		r.Undecided("R-C07.1", r.Key("R-C07.1", tb, "marshal", ""), tb.Body.Pos(), "no json.Marshal call in toBuffer")
+		// the serialisation may sit in a first-party helper: the helper's argument that reaches json.Marshal there
+		// stands for the Marshal argument, the helper call for the Marshal call
+		allInstrs(stb, false, func(ins ssa.Instruction) {
+			call, ok := ins.(*ssa.Call)
+			if !ok || marshalArg != nil {
+				return
+			}
+			cal := call.Call.StaticCallee()
+			if cal == nil || cal.Pkg == nil || !p.firstParty(cal.Pkg.Pkg) || cal.Blocks == nil {
+				return
+			}
+			allInstrs(cal, false, func(in2 ssa.Instruction) {
+				c2, ok := in2.(*ssa.Call)
+				if !ok || marshalArg != nil {
+					return
+				}
+				if sc := c2.Call.StaticCallee(); sc == nil || sc.String() != "encoding/json.Marshal" {
+					return
+				}
+				sl := backSlice(c2.Call.Args[0], nil)
+				for i, prm := range cal.Params {
+					if sl[prm] && i < len(call.Call.Args) {
+						marshalArg, marshalCall = call.Call.Args[i], call
+						return
+					}
+				}
+			})
+		})
+	}
+	if marshalArg == nil {
+		r.Undecided("R-C07.1", r.Key("R-C07.1", tb, "marshal", ""), tb.Body.Pos(), "no json.Marshal call in toBuffer or in a helper it hands the signed value to")
 		return
 	}
 	// the function result must be the Marshal result
@@ -444,6 +474,73 @@ func runC07(c *Ctx, r *Report) {
 
 	r.Doc("R-C07.7", "under a link key Verify signs Entry.Copy(): the copy reproduces every signed field from the same field of the original and from nothing else (no state shared between the predecessor and reference lists)")
 	entryCopyFieldwise(c, r, "R-C07.7")
+	r.Doc("R-C07.9", "what is signed and verified is the entry as it is: nothing on the signing path reorders or rewrites a link list, payload, key or signature through a slice a getter handed out (adopted from C05: a codec that sorts the links of the copy it seals makes every reordering of the links verify)")
+	importRules(c, r, "C05", []string{"R-C05.13"}, "R-C07.9")
+	r.Doc("R-C07.10", "the signed bytes never pass through a generic JSON decode: no json.Unmarshal / Decoder.Decode into an interface{} (or a map or slice of them) on the path that builds them — numbers decoded that way become float64, so clock times that differ beyond 53 bits sign the same bytes")
+	{
+		tbf := p.FuncI("entry", "", "toBuffer")
+		scope := c.CG.Reach([]*Fn{tbf, p.FuncI("entry", "", "ToHashable")}, false)
+		var untyped func(t types.Type, d int) bool
+		untyped = func(t types.Type, d int) bool {
+			if d > 4 || t == nil {
+				return false
+			}
+			switch u := t.Underlying().(type) {
+			case *types.Interface:
+				return u.NumMethods() == 0
+			case *types.Pointer:
+				return untyped(u.Elem(), d+1)
+			case *types.Map:
+				return untyped(u.Elem(), d+1)
+			case *types.Slice:
+				return untyped(u.Elem(), d+1)
+			}
+			return false
+		}
+		nfn := 0
+		var fnl []*Fn
+		for fn := range scope {
+			fnl = append(fnl, fn)
+		}
+		sort.Slice(fnl, func(i, j int) bool { return fnl[i].Name < fnl[j].Name })
+		for _, fn := range fnl {
+			if fn.Body == nil {
+				continue
+			}
+			nfn++
+			bad := ""
+			var badPos token.Pos
+			walkNoLit(fn.Body, func(n ast.Node) bool {
+				call, ok := n.(*ast.CallExpr)
+				if !ok || bad != "" {
+					return true
+				}
+				cf := p.Callee(fn, call)
+				if cf == nil || cf.Pkg() == nil || cf.Pkg().Path() != "encoding/json" {
+					return true
+				}
+				var target ast.Expr
+				switch {
+				case cf.Name() == "Unmarshal" && len(call.Args) == 2:
+					target = call.Args[1]
+				case cf.Name() == "Decode" && len(call.Args) == 1:
+					target = call.Args[0]
+				}
+				if target != nil && untyped(p.TypeOf(fn, target), 0) {
+					bad, badPos = "json."+cf.Name()+" into `"+types.ExprString(target)+"` ("+p.TypeOf(fn, target).String()+")", call.Pos()
+				}
+				return true
+			})
+			pos := fn.Body.Pos()
+			if bad != "" {
+				pos = badPos
+			}
+			r.Check(bad == "", "R-C07.10", r.Key("R-C07.10", fn, "no-generic-decode", ""), pos,
+				"nothing on the path that builds the signed bytes is decoded into an untyped value",
+				bad+" on the path that builds the signed bytes: every number comes back as a float64, so a clock time above 2^53 is rounded — entries whose times differ in the low bits sign (and verify) the same bytes")
+		}
+		r.Floor("R-C07.10", "functions that build the signed bytes", nfn, 2)
+	}
 	r.Doc("R-C07.8", "the clock reaches the signed copy as it is: the constructor stores its arguments unchanged, the copy takes both parts, the getters return their field")
 	clockValueObject(c, r, "R-C07.8")
 	verifySigDominates(c, r, "R-C07.4")
